@@ -617,3 +617,188 @@ Lemma empty_part_refuted : forall ua us,
   parse_str ua us (to_quoted_string (Full [99] [] [116])) = Bare [99; 46; 46; 116] /\
   from_qualified_name ua us (quoted_flat_name (mkcol (Some (Bare [])) [120])) = mkcol None [46; 120].
 Proof. intros. repeat split. Qed.
+
+(* ------------------------------------------------------------------ fallback parser (no sql feature) *)
+Lemma plain_not_dq_dot : forall d, plain_rest d = true -> (d =? 34) = false /\ (d =? 46) = false.
+Proof.
+  intros d H. apply plain_rest_cases in H. split; apply N.eqb_neq; lia.
+Qed.
+
+Lemma split_ns_plain : forall r rest inq cur acc,
+  forallb plain_rest r = true ->
+  split_ns (r ++ rest) inq cur acc = split_ns rest inq (rev r ++ cur) acc.
+Proof.
+  induction r as [| d r IH]; intros rest inq cur acc H; [reflexivity |].
+  simpl in H. apply andb_true_iff in H. destruct H as [Hd Hr].
+  destruct (plain_not_dq_dot d Hd) as [E1 E2].
+  simpl. rewrite E1, E2. simpl. rewrite (IH rest inq (d :: cur) acc Hr), <- app_assoc. reflexivity.
+Qed.
+
+Lemma split_ns_escaped : forall p rest cur acc,
+  split_ns (escape_dq p ++ rest) true cur acc = split_ns rest true (rev (escape_dq p) ++ cur) acc.
+Proof.
+  induction p as [| c p IH]; intros rest cur acc; [reflexivity |].
+  simpl escape_dq. destruct (c =? 34) eqn:Ec.
+  - apply N.eqb_eq in Ec. subst c.
+    change (split_ns ((34 :: 34 :: escape_dq p) ++ rest) true cur acc)
+      with (split_ns (escape_dq p ++ rest) true (34 :: 34 :: cur) acc).
+    rewrite IH. simpl. rewrite <- !app_assoc. reflexivity.
+  - simpl. rewrite Ec. rewrite andb_false_r. rewrite IH, <- app_assoc. reflexivity.
+Qed.
+
+Lemma split_ns_part : forall p rest cur acc,
+  split_ns (quote_identifier p ++ rest) false cur acc =
+  split_ns rest false (rev (quote_identifier p) ++ cur) acc.
+Proof.
+  intros p rest cur acc. unfold quote_identifier. destruct (needs_quotes p) eqn:E.
+  - replace ((34 :: escape_dq p ++ [34]) ++ rest) with (34 :: (escape_dq p ++ 34 :: rest))
+      by (simpl; rewrite <- app_assoc; reflexivity).
+    change (split_ns (34 :: (escape_dq p ++ 34 :: rest)) false cur acc)
+      with (split_ns (escape_dq p ++ 34 :: rest) true (34 :: cur) acc).
+    rewrite split_ns_escaped.
+    change (split_ns (34 :: rest) true (rev (escape_dq p) ++ 34 :: cur) acc)
+      with (split_ns rest false (34 :: rev (escape_dq p) ++ 34 :: cur) acc).
+    f_equal. simpl. rewrite rev_app_distr. simpl. rewrite <- app_assoc. reflexivity.
+  - apply split_ns_plain, needs_quotes_false_all. exact E.
+Qed.
+
+Lemma split_ns_dot : forall rest cur acc,
+  split_ns (46 :: rest) false cur acc = split_ns rest false [] (rev cur :: acc).
+Proof. reflexivity. Qed.
+
+Lemma split_ns_end : forall cur acc,
+  nonempty cur = true -> split_ns [] false cur acc = rev acc ++ [rev cur].
+Proof. intros cur acc H. destruct cur; [discriminate | reflexivity]. Qed.
+
+Lemma nonempty_rev : forall (s : str), nonempty s = true -> nonempty (rev s) = true.
+Proof.
+  intros s H. destruct s as [| c s]; [discriminate |]. simpl.
+  destruct (rev s ++ [c]) eqn:E; [apply app_eq_nil in E; destruct E; discriminate | reflexivity].
+Qed.
+
+Lemma split_ns_print : forall ps p acc,
+  nonempty (last (p :: ps) []) = true ->
+  split_ns (quote_identifier p ++ print_tail ps) false [] acc = rev acc ++ map quote_identifier (p :: ps).
+Proof.
+  induction ps as [| p' ps IH]; intros p acc H.
+  - simpl in H. change (print_tail []) with (@nil N). rewrite split_ns_part. rewrite !app_nil_r.
+    rewrite split_ns_end by (apply nonempty_rev, quote_identifier_nonempty; exact H).
+    rewrite rev_involutive. reflexivity.
+  - change (print_tail (p' :: ps)) with (46 :: quote_identifier p' ++ print_tail ps).
+    rewrite split_ns_part, app_nil_r, split_ns_dot, rev_involutive.
+    rewrite IH by exact H. simpl. rewrite <- app_assoc. reflexivity.
+Qed.
+
+Lemma unescape_escape : forall p, unescape_dq (escape_dq p) = p.
+Proof.
+  induction p as [| c p IH]; [reflexivity |].
+  simpl escape_dq. destruct (c =? 34) eqn:Ec.
+  - apply N.eqb_eq in Ec. subst c. simpl. rewrite IH. reflexivity.
+  - change (unescape_dq (c :: escape_dq p))
+      with (match escape_dq p with
+            | d :: r' => if (c =? 34) && (d =? 34) then 34 :: unescape_dq r' else c :: unescape_dq (escape_dq p)
+            | [] => [c] end).
+    destruct (escape_dq p) as [| d r'] eqn:E.
+    + simpl in IH. subst p. reflexivity.
+    + rewrite Ec. simpl andb. cbv iota. rewrite IH. reflexivity.
+Qed.
+
+Lemma utf8_len_ge : forall s, N.of_nat (length s) <= utf8_len s.
+Proof.
+  induction s as [| c s IH]; [simpl; lia |].
+  change (utf8_len (c :: s)) with (utf8_len1 c + utf8_len s).
+  assert (1 <= utf8_len1 c) by (unfold utf8_len1; repeat destruct (_ <? _); lia).
+  simpl length. lia.
+Qed.
+
+Lemma escape_dq_length : forall p, (length p <= length (escape_dq p))%nat.
+Proof.
+  induction p as [| c p IH]; simpl; [lia |]. destruct (c =? 34); simpl; lia.
+Qed.
+
+Lemma last_is_snoc : forall q l, last_is q (l ++ [q]) = true.
+Proof.
+  intros q l. unfold last_is. destruct (l ++ [q]) eqn:E.
+  - apply app_eq_nil in E. destruct E; discriminate.
+  - rewrite <- E, last_last. apply N.eqb_refl.
+Qed.
+
+Lemma normalize_ns_quote : forall ic p, normalize_ns ic (quote_identifier p) = p.
+Proof.
+  intros ic p. unfold normalize_ns, quote_identifier. destruct (needs_quotes p) eqn:E.
+  - assert (Hp : (1 <= length p)%nat) by (destruct p; [discriminate | simpl; lia]).
+    assert (D : is_double_quoted (34 :: escape_dq p ++ [34]) = true).
+    { unfold is_double_quoted.
+      assert (2 <? utf8_len (34 :: escape_dq p ++ [34]) = true) as ->.
+      { apply N.ltb_lt. pose proof (utf8_len_ge (34 :: escape_dq p ++ [34])) as L.
+        simpl length in L. rewrite app_length in L. simpl length in L.
+        pose proof (escape_dq_length p). lia. }
+      simpl tl. rewrite last_is_snoc. reflexivity. }
+    rewrite D. simpl tl. rewrite removelast_last. apply unescape_escape.
+  - assert (D : is_double_quoted p = false).
+    { unfold is_double_quoted. destruct (2 <? utf8_len p); [| reflexivity].
+      destruct p as [| c r]; [reflexivity |].
+      apply needs_quotes_false_inv in E. destruct E as [E _].
+      apply plain_first_cases in E. simpl hd_is.
+      assert (c =? 34 = false) as -> by (apply N.eqb_neq; lia). reflexivity. }
+    rewrite D. destruct ic; [reflexivity |]. apply lower_plain, needs_quotes_false_all. exact E.
+Qed.
+
+Lemma pin_ns_print : forall ps ic,
+  nonempty (last ps []) = true -> parse_identifiers_normalized_ns (print_parts ps) ic = ps.
+Proof.
+  intros ps ic H. destruct ps as [| p ps]; [discriminate |].
+  unfold parse_identifiers_normalized_ns, parse_identifiers_ns. simpl print_parts.
+  rewrite split_ns_print by exact H.
+  change (rev (@nil str) ++ map quote_identifier (p :: ps)) with (map quote_identifier (p :: ps)).
+  rewrite map_map. rewrite (map_ext _ (fun p => p)) by (intros; apply normalize_ns_quote). apply map_id.
+Qed.
+
+Lemma ref_ok_ns_parts : forall r, ref_ok_ns r = true ->
+  r = Bare [] \/ nonempty (last (to_vec r) []) = true.
+Proof.
+  destruct r as [t | s t | c s t]; simpl; intros H.
+  - destruct t; [left; reflexivity | right; reflexivity].
+  - right. exact H.
+  - right. exact H.
+Qed.
+
+Theorem ns_table_ref_roundtrip : forall r ic,
+  ref_ok_ns r = true -> parse_str_normalized_ns (to_quoted_string r) ic = r.
+Proof.
+  intros r ic H. apply ref_ok_ns_parts in H. destruct H as [-> | H].
+  - reflexivity.
+  - unfold parse_str_normalized_ns. rewrite to_quoted_string_parts, pin_ns_print by exact H.
+    destruct r; reflexivity.
+Qed.
+
+Lemma print_parts_snoc' : forall ps n, ps <> [] ->
+  print_parts (ps ++ [n]) = print_parts ps ++ 46 :: quote_identifier n.
+Proof.
+  intros ps n H. destruct ps as [| p ps]; [congruence |].
+  simpl. rewrite print_tail_app. simpl. rewrite app_nil_r, app_assoc. reflexivity.
+Qed.
+
+Theorem ns_column_roundtrip : forall c,
+  col_ok_ns c = true -> from_qualified_name_ns (quoted_flat_name c) = c.
+Proof.
+  intros [rel n] H. unfold col_ok_ns in H. simpl in H.
+  unfold from_qualified_name_ns, quoted_flat_name. simpl.
+  destruct rel as [r |].
+  - rewrite to_quoted_string_parts.
+    rewrite <- (print_parts_snoc' (to_vec r) n) by (destruct r; discriminate).
+    rewrite pin_ns_print by (rewrite last_last; exact H).
+    destruct r; reflexivity.
+  - destruct n as [| x n]; [reflexivity |].
+    rewrite <- print_parts_single. rewrite pin_ns_print by reflexivity. reflexivity.
+Qed.
+
+(* the fallback parser silently DROPS a trailing empty part: the text resolves to a different,
+   well-formed reference *)
+Lemma ns_empty_last_refuted :
+  parse_str_ns (to_quoted_string (Partial [116] [])) = Bare [116] /\
+  parse_str_ns (to_quoted_string (Full [99] [115] [])) = Partial [99] [115] /\
+  from_qualified_name_ns (quoted_flat_name (mkcol (Some (Bare [116])) [])) = mkcol None [116] /\
+  (* but empty leading / middle parts are fine for this parser *)
+  parse_str_ns (to_quoted_string (Full [] [] [116])) = Full [] [] [116].
+Proof. repeat split. Qed.
